@@ -5,6 +5,7 @@ import (
 	"context"
 	"errors"
 	"path"
+	"strings"
 	"time"
 
 	"github.com/hack-pad/hackpadfs"
@@ -334,6 +335,13 @@ func (fs *FS) checkRenameTarget(oldname, newname string, oldIsDir bool) error {
 		if !parentInfo.IsDir() {
 			return hackpadfs.ErrNotDir
 		}
+	}
+	if oldIsDir && strings.HasPrefix(newname, oldname+"/") {
+		if newInfo, err := fs.Stat(newname); err == nil && newInfo.IsDir() {
+			return hackpadfs.ErrExist // an existing directory target is reported first, as os.Rename does
+		}
+		// a directory cannot be moved below itself (os: EINVAL); doing so recursed forever
+		return hackpadfs.ErrInvalid
 	}
 	return nil
 }
